@@ -1,4 +1,6 @@
 """C13 Client transactions end in bounded time with a result and recover."""
+import os
+
 from hypothesis import strategies as st
 
 from vlib import gens, kinds, pm, refframe, specpdu, transports
@@ -34,7 +36,10 @@ def _case(draw):
     script = []
     for _ in range(draw(st.integers(1, 5))):
         b = draw(st.sampled_from(BEHAVIOURS))
-        if b == 'partial':
+        if b in ('oserror_send', 'oserror_recv'):
+            # errno of the OS error: broken pipe / connection reset (ConnectionError subclasses), host unreachable, I/O error, bad descriptor, timed out
+            script.append([b, draw(st.sampled_from([32, 104, 113, 5, 9, 110]))])
+        elif b == 'partial':
             script.append(['partial', draw(st.integers(1, 12))])
         elif b == 'garbage':
             script.append(['garbage', draw(st.one_of(st.binary(min_size=1, max_size=20), st.sampled_from([b':zz', b':0103zz\r\n', b'{}', b'\x00' * 9]))).hex()])
@@ -61,7 +66,7 @@ def sweeps(tier):
     import itertools
     cases = []
     beh = [['reply'], ['exc'], ['nothing'], ['partial', 3], ['garbage', 'deadbeef00112233445566'], ['wrong_unit'], ['stale'], ['late'],
-           ['oserror_send'], ['oserror_recv'], ['close'], ['undecodable'], ['wrong_unit_long']]
+           ['oserror_send'], ['oserror_recv'], ['close'], ['undecodable'], ['wrong_unit_long'], ['oserror_send', 113], ['oserror_recv', 5]]
     settings = [(0, False, False), (3, False, False), (2, True, False), (2, False, True), (1, True, True), (0, True, True), (3, True, True)]
     maxlen = 3 if tier == 'thorough' else 2
     for client in CLIENTS:
@@ -138,9 +143,9 @@ class FaultPeer(transports.Peer):
         if beh[0] == 'late':
             return [(self.timeout * 1.5 + 0.01, frame)]
         if beh[0] == 'oserror_send':
-            raise OSError(32, 'Broken pipe')
+            raise OSError(beh[1] if len(beh) > 1 else 32, os.strerror(beh[1] if len(beh) > 1 else 32))
         if beh[0] == 'oserror_recv':
-            self.read_error = True
+            self.read_error = beh[1] if len(beh) > 1 else 104
             return []
         if beh[0] == 'close':
             return [('close', 0.0)]
@@ -148,8 +153,8 @@ class FaultPeer(transports.Peer):
 
     def on_read_error(self, conn):
         if self.read_error:
-            self.read_error = False
-            return OSError(104, 'Connection reset by peer')
+            no, self.read_error = self.read_error, False
+            return OSError(no, os.strerror(no))
         return None
 
 
